@@ -40,6 +40,7 @@ DEFAULT_SPEC = {
     "equal_len": 0,        # make two chromosomes equally long
     "chr_order": 0,        # permutation index for chromosome length ranking (pads tails)
     "tie_perm": 0,         # permutation seed for record order among equal positions
+    "exp_polya": None,     # per-experiment list: 0 = this experiment's reads are polyA-trimmed
 }
 
 CHR_NAMES = ["chr1", "chr2", "chr10", "chrX", "chr3", "chrM", "chr11", "chr4"]
@@ -450,12 +451,22 @@ def build(spec, outdir, gtf_gz=False, write_bams=True):
                     a.reference_id = ci
                     a.reference_start = pos
                     a.mapping_quality = rec["mapq"]
+                    cig, sq = rec["cigar"], rec["seq"]
+                    ep = s.get("exp_polya")
+                    if ep and e < len(ep) and not ep[e]:
+                        # this experiment's library is polyA-trimmed: drop the soft-clipped tails
+                        if cig and cig[0][0] == 4:
+                            sq = sq[cig[0][1]:] if sq else sq
+                            cig = cig[1:]
+                        if cig and cig[-1][0] == 4:
+                            sq = sq[:-cig[-1][1]] if sq else sq
+                            cig = cig[:-1]
                     if rec["flag"] & 2048:
                         # hard clip the rest, as aligners do
-                        a.cigartuples = rec["cigar"] + [(5, 50)]
+                        a.cigartuples = cig + [(5, 50)]
                     else:
-                        a.cigartuples = rec["cigar"]
-                    a.query_sequence = rec["seq"]
+                        a.cigartuples = cig
+                    a.query_sequence = sq
                     a.next_reference_id = -1
                     a.next_reference_start = -1
                     tags = [("NM", 0)]
